@@ -240,10 +240,11 @@ def run(ctx):
     ctx.rules["C03-R8"]["decides"] = "(shared with C03) the connection that carried an unfinished body is never handed to another request by release_conn: " + ctx.rules["C03-R8"]["decides"]
 
     # ------------------------------------------------------------------ shared with C12-R6: the decoder is flushed when the body ends inside a sized read
-    from .c12 import analyse_reader as _ar12, stale_flush_clause as _sfc
+    from .c12 import analyse_reader as _ar12, stale_flush_clause as _sfc, eof_return_flush_clause as _efc
     R12_6 = ctx.rule("C12-R6", "(shared with C12) an incomplete compressed stream is noticed by every read API: bytes that may be empty (the raw stream may just have ended) are never decoded under a flush flag that is definitely false - a flag decided on an earlier read of the same call is stale at the end of the body, the decoder is then never flushed and read(n) / stream(n) end normally on a truncated zstd frame", "E4 + E5 on read (shared with C12)")
     fi12, rule12, _o12 = _ar12(ctx, "read")
     _sfc(ctx, R12_6, fi12, rule12)
+    _efc(ctx, R12_6, fi12, rule12, _o12)  # ... and read() does not report the end of the body before a decoder that was fed is flushed
     ctx.sites(R12_6, len(rule12.decodes), 2, "decode calls in read")
 
     # ------------------------------------------------------------------ R7 preload uses the same reader
